@@ -91,7 +91,10 @@ CHECKS = {
         "never acknowledges a rejected action; at store level (Model/Dispatch.v: addressed store, StoreAdapter get/set over bound names, "
         "tagging and the ACCEPT rule) a reducer answering (input state, [reject]) leaves the store extensionally unchanged when all "
         "bound addresses are present (C07_store_unchanged; the guard is necessary: setdefault, witness proved) and a dispatch never "
-        "writes outside the component's bound addresses (C07_write_frame, lifted to router and play). StackableBuffSkillComponent.use as shipped is refuted with a witness (open known finding: a unit "
+        "writes outside the component's bound addresses (C07_write_frame, lifted to router and play); at router level a rejected player "
+        "action is a no-op for every system without raw-action listeners (C07_router_rejected_is_noop), addons do not follow a rejected "
+        "base answer (repair 5abf1af, C07_rejected_base_skips_addons), and the raw-action listeners of all shipped systems are inside a "
+        "reviewed list (generated obligation; archmagefb's three are an open known finding: a unit test asserts the behaviour). StackableBuffSkillComponent.use as shipped is refuted with a witness (open known finding: a unit "
         "test asserts the behaviour) and its largest true part is proved; three further defects found by this check in job-specific classes "
         "(FlameSwipVI.use, the two FlareSlash triggers) were repaired and the models follow the repaired code. The models are compared in Coq "
         "with the real reducers (full output state, event list, views) on random, reachable and shipped instances on every run.",
@@ -161,8 +164,8 @@ CHECKS = {
         "grammar, the TreeToOperation templates and the API render/split code as data which Coq proves equal to the model's (vm_compute): "
         "parse(print cs) = cs for all non-empty command lists with finite times; xN replicates N times for every integer N; the parse is "
         "invariant under every layout the grammar's gap rule accepts; header/body split round trip; character-level round trips of "
-        "strings, words and numbers. The unrestricted statements are refuted with witnesses (four open known findings: inf time, last-line "
-        "comment, trailing newline, consecutive comment lines).",
+        "strings, words and numbers. The unrestricted statements are refuted with witnesses (five open known findings: inf time, last-line "
+        "comment, trailing newline, consecutive comment lines, text before the header opener breaking the API's re-rendering).",
    note="Trusted: Coq kernel; translator tools/tr_grammar.py; Lark's Earley parser, float repr and YAML are covered by correspondence "
         "(Lark vs model on grammar-generated plans), not modelled; 'executing the re-parsed plan gives the same result' is tested only.",
    technique="Coq proof over a token/layout model + generated grammar/template tie (translator -> vm_compute equality) + Coq-evaluated correspondence with Lark on generated plans",
